@@ -70,10 +70,17 @@ type plColl struct {
 }
 
 type plDriver struct {
-	Kind string // start | addpart | stop
+	Kind string // start | addpart | stop | resume
 	Coll int
 	Part string
 	PartState pb.PartitionState
+	// resume = the pause and resume of a task on the same channel manager (the manager belongs to the target and
+	// outlives the pause): StopReadCollection, StartReadCollection with the checkpoint ResumeSeekMs (and the collection
+	// reported as dropped by the catalog if ResumeDropped), then the start-up listing announces partition Part in
+	// state PartState. AfterDrop: the driver becomes enabled when the first drop request has been issued.
+	AfterDrop     bool
+	ResumeSeekMs  int64
+	ResumeDropped bool
 }
 
 type plScenario struct {
@@ -91,6 +98,7 @@ type plScenario struct {
 	Hooks      string // which verif yield points park: "" = pack.computed + barrier.signal, "all" = every hook
 	Bound      *int // deviation bound override for this scenario
 	DelayPartitionOnTarget bool // downstream partition id appears only when the create-partition event is applied
+	SlowDropOnTarget bool // the downstream has not applied a drop request yet when it is asked again: it still lists the dropped object
 	ParkTargetInStart bool // the downstream lookups made by StartReadCollection are scheduling points (check-then-act window of the duplicate-start handling)
 }
 
@@ -342,6 +350,8 @@ type plRun struct {
 	outs    map[string][]*api.ReplicateMsg // downstream pchannel -> packs in arrival order
 	chans   []string
 	events  []*api.ReplicateAPIEvent
+	dropSeen       chan struct{} // closed when the first drop request has been issued
+	dropSeenClosed bool
 	evAt    []int // number of packs delivered (per stream) when the event was observed -> snapshot
 	evDelivered []map[string]int
 	delivered   map[string]int // stream -> packs handed to the reader so far
@@ -402,6 +412,7 @@ func plExecute(t *testing.T, sc *plScenario, ctl *sched.Ctl) *plRun {
 	replicatePool = pool
 	r := &plRun{sc: sc, ctl: ctl, srcByID: map[string]*plSrcMsg{}, outs: map[string][]*api.ReplicateMsg{}, delivered: map[string]int{},
 		driverErr: map[string]error{}, driverDone: map[string]bool{}, wrapped: map[*replicateChannelHandler]bool{}, inAddPart: map[int64]bool{}, inStart: map[int64]string{}, replicateID: fmt.Sprintf("rid%d", plExecSeq), clockLeft: sc.Clock}
+	r.dropSeen = make(chan struct{})
 	r.mq = fakemq.New(plSched{r})
 	r.mq.ParkRegister = sc.ParkRegister
 	r.target = &plTarget{colls: map[string]*model.CollectionInfo{}}
@@ -472,6 +483,10 @@ func plExecute(t *testing.T, sc *plScenario, ctl *sched.Ctl) *plRun {
 				}
 				r.events = append(r.events, e)
 				r.evDelivered = append(r.evDelivered, snap)
+				if (e.EventType == api.ReplicateDropCollection || e.EventType == api.ReplicateDropPartition) && !r.dropSeenClosed {
+					r.dropSeenClosed = true
+					close(r.dropSeen)
+				}
 				r.hmu.Unlock()
 				r.applyEvent(e)
 			}
@@ -481,6 +496,9 @@ func plExecute(t *testing.T, sc *plScenario, ctl *sched.Ctl) *plRun {
 		d := d
 		name := fmt.Sprintf("%s:%s%s#%d", d.Kind, sc.Colls[d.Coll].Name, d.Part, i)
 		go func() {
+			if d.AfterDrop {
+				<-r.dropSeen
+			}
 			ctl.Point("drv:"+name, "go", true)
 			c := sc.Colls[d.Coll]
 			tctx := plTaskCtx(ctx, "task-"+c.Name)
@@ -510,6 +528,30 @@ func plExecute(t *testing.T, sc *plScenario, ctl *sched.Ctl) *plRun {
 					&pb.PartitionInfo{PartitionID: c.partID(d.Part), PartitionName: d.Part, CollectionId: c.ID, PartitionCreatedTimestamp: plTs(950, 0), State: d.PartState})
 			case "stop":
 				err = r.mgr.StopReadCollection(tctx, c.info())
+			case "resume":
+				err = r.mgr.StopReadCollection(tctx, c.info())
+				if err == nil {
+					ctl.Point("drv:"+name, "resume-start", false)
+					var seek []*msgpb.MsgPosition
+					for _, sh := range c.Shards {
+						pc := funcutil.ToPhysicalChannel(sh.SrcV)
+						id := []byte("start-" + pc)
+						if le := r.mq.LastEnd(sh.SrcV); le != nil {
+							id = le.MsgID // the checkpoint of a stream that had been read to its end
+						}
+						seek = append(seek, &msgpb.MsgPosition{ChannelName: pc, MsgID: id, Timestamp: plTs(d.ResumeSeekMs, 0)})
+					}
+					info := c.info()
+					if d.ResumeDropped {
+						info.State = pb.CollectionState_CollectionDropped
+					}
+					err = r.mgr.StartReadCollection(tctx, &model.DatabaseInfo{ID: 1, Name: c.DB}, info, seek, nil)
+				}
+				if err == nil && d.Part != "" {
+					ctl.Point("drv:"+name, "resume-addpart", false)
+					err = r.mgr.AddPartition(tctx, &model.DatabaseInfo{ID: 1, Name: c.DB}, c.info(),
+						&pb.PartitionInfo{PartitionID: c.partID(d.Part), PartitionName: d.Part, CollectionId: c.ID, PartitionCreatedTimestamp: plTs(950, 0), State: d.PartState})
+				}
 			}
 			r.hmu.Lock()
 			r.driverErr[name] = err
@@ -656,10 +698,12 @@ func (r *plRun) applyEvent(e *api.ReplicateAPIEvent) {
 			ci.Partitions[e.PartitionInfo.PartitionName] = c.tgtPartID(e.PartitionInfo.PartitionName)
 		}
 	case api.ReplicateDropPartition:
-		if ci, ok := r.target.colls[k]; ok {
+		if ci, ok := r.target.colls[k]; ok && !r.sc.SlowDropOnTarget {
 			delete(ci.Partitions, e.PartitionInfo.PartitionName)
 		}
 	case api.ReplicateDropCollection:
-		delete(r.target.colls, k)
+		if !r.sc.SlowDropOnTarget {
+			delete(r.target.colls, k)
+		}
 	}
 }
